@@ -137,4 +137,78 @@ theorem collapse_of_no_white (s : List Char) (h : ∀ c ∈ s, Lex.isPyWhite c =
   rw [subWhite_of_no_white false s h]
   exact stripSp_of_no_sp s (fun hm => by have := h _ hm; exact absurd this (by decide))
 
+/-! ### after fix-c10-2 the implementation's white space *is* XML white space -/
+
+theorem char_eq_of_toNat (c d : Char) (h : c.toNat = d.toNat) : c = d :=
+  Char.ext (UInt32.toNat_inj.mp h)
+
+theorem pyWhite_eq_xsd (c : Char) : Lex.isPyWhite c = XSD.isXsdWhite c := by
+  rw [Bool.eq_iff_iff]
+  simp only [Lex.isPyWhite, Lex.pyWhiteCPs, List.contains_cons, List.contains_nil, Bool.or_false,
+    Bool.or_eq_true, beq_iff_eq, XSD.isXsdWhite]
+  constructor
+  · rintro (h | h | h | h)
+    · exact Or.inl (Or.inl (Or.inr (char_eq_of_toNat c '\t' h)))
+    · exact Or.inl (Or.inr (char_eq_of_toNat c '\n' h))
+    · exact Or.inr (char_eq_of_toNat c '\r' h)
+    · exact Or.inl (Or.inl (Or.inl (char_eq_of_toNat c ' ' h)))
+  · rintro (((h | h) | h) | h) <;> subst h <;> decide
+
+theorem noPyOnlyWhite_all (s : List Char) : noPyOnlyWhite s = true := by
+  unfold noPyOnlyWhite
+  rw [List.all_eq_true]
+  intro c _
+  rw [pyWhite_eq_xsd]
+  cases XSD.isXsdWhite c <;> rfl
+
+/-- **the implementation's `collapse_white_spaces` is the XSD whiteSpace=collapse normalisation** — every string -/
+theorem collapse_eq_wsCollapse_all (s : List Char) : Lex.collapse s = XSD.wsCollapse s :=
+  collapse_eq_wsCollapse s (noPyOnlyWhite_all s)
+
+theorem filter_dropWhile_sp (l : List Char) :
+    (l.dropWhile (· == ' ')).filter (· != ' ') = l.filter (· != ' ') := by
+  induction l with
+  | nil => rfl
+  | cons a t ih =>
+    by_cases h : (a == ' ') = true
+    · have : (a != ' ') = false := by simpa [bne] using h
+      simp only [List.dropWhile_cons, h, ↓reduceIte, ih, List.filter_cons, this, Bool.false_eq_true]
+    · simp only [List.dropWhile_cons, h, Bool.false_eq_true, ↓reduceIte]
+
+theorem filter_stripSp (l : List Char) : (Lex.stripSp l).filter (· != ' ') = l.filter (· != ' ') := by
+  unfold Lex.stripSp
+  rw [List.filter_reverse, filter_dropWhile_sp, ← List.filter_reverse, List.reverse_reverse,
+    filter_dropWhile_sp]
+
+theorem filter_subWhite (b : Bool) (s : List Char) :
+    (Lex.subWhite b s).filter (· != ' ') = s.filter (fun c => !Lex.isPyWhite c) := by
+  induction s generalizing b with
+  | nil => rfl
+  | cons c cs ih =>
+    unfold Lex.subWhite
+    by_cases hw : Lex.isPyWhite c = true
+    · simp only [hw, ↓reduceIte]
+      cases b <;> simp [List.filter_cons, hw, ih]
+    · have hw' : Lex.isPyWhite c = false := by simpa using hw
+      have hne : (c != ' ') = true := by
+        rw [bne_iff_ne]; intro e; subst e; exact absurd hw' (by decide)
+      simp [hw', List.filter_cons, hne, ih]
+
+/-- removing the spaces of the collapsed string = removing every white character of the string -/
+theorem filter_collapse (s : List Char) :
+    (Lex.collapse s).filter (· != ' ') = s.filter (fun c => !Lex.isPyWhite c) := by
+  unfold Lex.collapse
+  rw [filter_stripSp, filter_subWhite]
+
+theorem filter_collapse_collapse (s : List Char) :
+    (Lex.collapse (Lex.collapse s)).filter (· != ' ') = (Lex.collapse s).filter (· != ' ') := by
+  rw [filter_collapse (Lex.collapse s)]
+  apply List.filter_congr
+  intro c hc
+  rcases collapse_no_white s c hc with h | h
+  · subst h; decide
+  · rw [h]
+    have : c ≠ ' ' := by intro e; subst e; exact absurd h (by decide)
+    simpa using this
+
 end EPV.LexLemmas
